@@ -605,6 +605,9 @@ def call_seq_method(ex, recv, name, A, kw, st, node):
             v = ex.freeze(v, st) if isinstance(v, Ref) and recv.tag == 'list' and getattr(ex.c, 'freeze_appends', True) else v
         st.write_cell(recv, (sq + SSeq.of([v], sq.kind)).with_kind(sq.kind))
         return None
+    if name == 'clear' and mut and not A:
+        st.write_cell(recv, SSeq(0, lambda k: 0, sq.kind))
+        return None
     if name == 'extend' and mut:
         src = A[0]
         if isinstance(src, tuple):
